@@ -15,7 +15,7 @@ SHARDS = {'quick': 16, 'thorough': 64}
 TIMEOUT = {'quick': 1500, 'thorough': 7200}
 MUST_HIT = ['Classify.input-accepted', 'Classify.input-rejected', 'Classify.build-ok',
             'Classify.build-rejected', 'ShadowLoader.compare', 'ShadowLoader.statements-unchanged',
-            'CpuBudget.guarded']
+            'CpuBudget.guarded', 'Route.input', 'Route.file_input', 'Route.filename_input']
 MUST_REACH = ['xtuml/load.py:ModelLoader.t_error', 'xtuml/load.py:ModelLoader.p_error',
               'xtuml/load.py:deserialize_value', 'xtuml/load.py:ModelLoader.p_cardinality_many',
               'xtuml/load.py:ModelLoader.input', 'xtuml/load.py:ModelLoader.build_metamodel']
@@ -45,14 +45,45 @@ def innermost_repo_function(exc, root):
     return tb[-1].name if tb else '?'
 
 
+import random
+ROUTE_RNG = random.Random(12)     # which input method a text takes (independent of the text generator)
+
+
 def try_input(ctx, loader, text):
     '''-> (accepted, exception or None)'''
     import xtuml
     n = len(loader.statements)
     ctx.hit('CpuBudget.guarded')
     ctx.guard(5 + len(text) // 2000, 'cpu-budget/input', dict(text=text))
+    route = 'input'
+    k = ROUTE_RNG.random()
+    if k < 0.1:
+        route = 'file_input'
+    elif k < 0.2:
+        try:
+            text.encode('utf-8')
+            route = 'filename_input'
+        except UnicodeError:
+            pass
+    ctx.hit('Route.' + route)
     try:
-        loader.input(text)
+        if route == 'input':
+            loader.input(text)
+        elif route == 'file_input':
+            import io
+            f = io.StringIO(text)
+            f.name = 'stream'
+            loader.file_input(f)
+        else:
+            import os
+            import tempfile
+            fd, path = tempfile.mkstemp(prefix='pyxtuml-verif-c12-', suffix='.sql')
+            try:
+                with os.fdopen(fd, 'w', encoding='utf-8', newline='') as f:
+                    f.write(text)
+                loader.filename_input(path)
+            finally:
+                os.remove(path)
         ok, exc = True, None
     except xtuml.ParsingException as e:
         ok, exc = False, e
